@@ -192,6 +192,37 @@ def base_case(ctx, rng, idx):
                           {'original': val, 'transformed': v2,
                            'case': describe}, feats)
 
+    # ---- log-normal filters with a non-positive simulated value (additive
+    # noise produces them routinely): whatever such an array scores, it
+    # scores the same with and without missing-value padding, and the score
+    # returned with the sensitivities is the same
+    if cname.startswith('LogNormal') and (idx // 5) % 3 == 0:
+        sim_n = sim.copy()
+        sim_n[int(rng.integers(len(sim_n))), int(rng.integers(
+            sim.shape[1])), int(rng.integers(sim.shape[2]))] = \
+            [0.0, -0.7][int(rng.integers(2))]
+        try:
+            vals = {}
+            for tag, o2 in (('plain', obs), ('nan_padding', obs_p)):
+                f2 = make_filter(cname, o2, k)
+                with np.errstate(all='ignore'):
+                    vals[tag] = float(f2.compute_log_likelihood(
+                        sim_n.copy()))
+                    vals[tag + ':s1'] = float(f2.compute_sensitivities(
+                        sim_n.copy())[0])
+            ctx.count('nonpositive_simulations')
+            ref_v = vals['plain']
+            if any(not FM.same(v_, ref_v) for v_ in vals.values()) or \
+                    np.isfinite(ref_v):
+                ctx.violation('invariance',
+                              'nonpositive_simulation_scores_differ:' + cname,
+                              {'scores': vals, 'case': describe}, feats)
+        except Exception as e:      # noqa
+            ctx.violation_exc('evaluation_raises', e,
+                              {'case': describe,
+                               'transformation': 'non-positive simulation'},
+                              feats)
+
     # ---- the same numbers in another container / dtype
     # (filters document np.ndarray inputs: array forms only)
     form = FM.pick(rng, ['readonly', 'strided', 'fortran', 'int64', 'int32'])
